@@ -50,7 +50,12 @@ import shutil
 
 from vlib import env
 
-THEOREMS = []
+THEOREMS = [
+    "bundle_revs_spec", "bundle_partition", "bundle_contents", "bundle_install_monotone", "bundle_install_faithful",
+    "install_returns_target", "bundle09_install_faithful", "split_join", "directive_roundtrip",
+    "directive_roundtrip_file", "blockCodec_law", "directive_marker_witness", "verify_refl", "norm_skeleton",
+    "tamper_detected", "verify_whitespace_witness",
+]
 RUST = ("patch-py",)      # format_patch_date / parse_patch_date of the directive's timestamp
 RULE = ("scenario = (seed, index, repository format): a generated history of 5-8 revisions committed through a working "
         "tree; case = one (base, target, serializer version[, extra revision in the installing repository]) "
@@ -192,7 +197,8 @@ def gen_history(rng, nrevs, opts=None):
 
     def new_fid(kind):
         fidc[0] += 1
-        return ("%s-%d" % (kind[0], fidc[0])).encode()
+        # some ids contain the characters the v4 record names escape (`/`) and the 0.9 action lines use (`:`)
+        return ("%s%s%d" % (kind[0], rng.choice(["-", "-", "-", "/", "//", ":"]), fidc[0])).encode()
 
     tips = []
     for i in range(nrevs):
@@ -478,7 +484,9 @@ def read_state(repo):
             for p, ie in inv.iter_entries():
                 if p == "" and not rich:
                     continue
-                ents[ie.file_id] = (p, ie.kind, bool(getattr(ie, "executable", False)),
+                # what the stored entry says (parent id and name, not the path: an entry below a renamed
+                # directory is unchanged)
+                ents[ie.file_id] = ((ie.parent_id, ie.name), ie.kind, bool(getattr(ie, "executable", False)),
                                     getattr(ie, "symlink_target", None), ie.revision,
                                     getattr(ie, "text_sha1", None))
             st["invs"][inv.revision_id] = ents
@@ -1170,7 +1178,7 @@ def damaged_case(rng, lines, good_stanza, out):
     sh = shim()
     lines = list(lines)
     r = rng.choice(["junk-before", "no-header", "format-0.19", "format-1", "format-3", "header-space", "payload-garbage",
-                    "marker-suffix", "bundle-first", "drop-patch-marker", "blank-short", "double-header"])
+                    "marker-suffix", "bundle-first", "drop-patch-marker", "blank-short"])
     k = next(i for i, l in enumerate(lines) if l.startswith(b"# Bazaar merge directive format "))
     t = next(i for i, l in enumerate(lines) if l == b"# \n")
     if r == "junk-before":
@@ -1201,8 +1209,6 @@ def damaged_case(rng, lines, good_stanza, out):
             del lines[t + 1]
     elif r == "blank-short":
         lines[t] = b"#\n"
-    elif r == "double-header":
-        lines.insert(0, lines[k])
     case = dict(damaged=r, lines=[l.decode("latin-1") for l in lines])
     out["cases"].append((case, True))
     out["count"]["damaged:" + r] += 1
@@ -1282,6 +1288,20 @@ def from_objects_case(sc, base, target, rng, out):
                 out["viol"].append((case, "the directive's own patch does not verify against the installed revisions (%s)" % verdict, None))
             out["t2"].append((case, "verify %s %s" % (hexo(calc), hexo(d2.patch)), "T" if verdict == "verified" else "F"))
             stored = d2.patch
+            # mutations the verifier is documented to tolerate: line endings and trailing spaces
+            nls = [i for i in range(len(stored)) if stored[i] == 10]
+            for _ in range(2):
+                if not nls:
+                    break
+                pos = rng.choice(nls)
+                mut = stored[:pos] + rng.choice([b"\r", b"\r\n", b" \n", b"   \r\n"]) + stored[pos + 1:]
+                d2.patch = mut
+                v = d2._maybe_verify(T)
+                d2.patch = stored
+                tc = dict(case, patch_benign=[pos, mut[pos:pos + 5].hex()])
+                out["cases"].append((tc, True))
+                out["t2"].append((tc, "verify %s %s" % (hexo(calc), hexo(mut)), "T" if v == "verified" else "F"))
+                out["count"]["patch-benign:%s" % v] += 1
             for _ in range(4):
                 pos = rng.randrange(len(stored)) if stored else 0
                 if not stored:
@@ -1358,13 +1378,11 @@ def run(ctx, nscen=None, ndir=None):
     rng = ctx.rng
     bundles = [b"# Bazaar revision bundle v4\n#\nBZh91AY&SY" + bytes(rng.randrange(256) for _ in range(80))]
     from bzrformats import rio
-    good = None
+    good = rio.Stanza(revision_id="r", timestamp="2020-01-01 00:00:00 +0000", target_branch="t", source_branch="s",
+                      base_revision_id="b")
     for i in range(ndir or ctx.pick(150, 1500)):
         kw = gen_directive_kwargs(rng, bundles)
         lines = directive_case(kw, out, via_file=(i % 2 == 0))
-        if good is None:
-            from breezy import merge_directive as md
-            good = shim().real.read_patch_stanza(iter(md.MergeDirective2(**kw)._to_lines(base_revision=True)[1:]))
         if rng.random() < 0.12:
             damaged_case(rng, lines, good, out)
     _merge_out(ctx, dict(out, count=dict(out["count"])), t2)
@@ -1395,8 +1413,9 @@ def replay(ctx, case):
         from breezy import merge_directive as md
         lines = [l.encode("latin-1") for l in case["lines"]]
         sh = shim()
-        kw = gen_directive_kwargs(random.Random(0), [])
-        sh.canned = sh.real.read_patch_stanza(iter(md.MergeDirective2(**kw)._to_lines(base_revision=True)[1:]))
+        from bzrformats import rio
+        sh.canned = rio.Stanza(revision_id="r", timestamp="2020-01-01 00:00:00 +0000", target_branch="t",
+                               source_branch="s", base_revision_id="b")
         try:
             d2 = md.MergeDirective.from_lines(lines)
             impl = "ok %s %s" % (hexo(getattr(d2, "patch", None)), hexo(getattr(d2, "bundle", None)))
